@@ -80,3 +80,15 @@ KFN void k_dec_array2_i32(const tev* t, unsigned n, tres* r) {
     mcursor c(t, n); auto res = reflect::decode_traits<std::array<int32_t, 2>>::decode(make_alloc_set(), c);
     r->ok = res ? 1 : 0; r->ec = res ? 0 : res.error().code().value(); r->v0 = res ? (*res)[0] : 0; r->v1 = res ? (*res)[1] : 0; r->pos = c.i; r->overrun = c.overrun;
 }
+// sequence containers through the streaming route: elements arrive in order
+#include <forward_list>
+
+#include <vector>
+struct sres4 { int ok; int ec; unsigned count; long long v[5]; unsigned pos; };
+template <class C> static inline void dec_seq(const tev* t, unsigned n, sres4* r) {
+    mcursor c(t, n); auto res = reflect::decode_traits<C>::decode(make_alloc_set(), c);
+    r->ok = res ? 1 : 0; r->ec = res ? 0 : res.error().code().value(); r->count = 0; r->pos = c.i;
+    if (res) { for (auto it = (*res).begin(); it != (*res).end() && r->count < 5; ++it) r->v[r->count++] = *it; }
+}
+KFN void k_dec_flist(const tev* t, unsigned n, sres4* r) { dec_seq<std::forward_list<uint16_t>>(t, n, r); }
+KFN void k_dec_vector(const tev* t, unsigned n, sres4* r) { dec_seq<std::vector<uint16_t>>(t, n, r); }
